@@ -16,8 +16,8 @@ const FIELD_NAMES: &[&str] = &[
     "varlink", "serde_json", "Some", "Option",
 ];
 const TYPE_NAMES: &[&str] = &["T", "Rec", "Item", "Tree", "State", "Kind", "Config", "Point", "Node", "Entry", "Type", "Method", "Interface", "Bool", "Int", "Float", "Object", "Into", "Clone", "Some", "None", "Ok", "Err", "Value", "Reply", "Args", "Request", "X1", "A", "B2c"];
-const METHOD_NAMES: &[&str] = &["Ping", "GetInfo", "Foo", "Bar", "Set2", "ListAll", "X", "GetID", "HTTPGet", "Monitor", "Put", "Union", "Auto", "Default", "New", "Reply", "TestMore", "StopServing", "Start01", "End"];
-const ERROR_NAMES: &[&str] = &["Bad", "NotFound", "Failed", "ErrorFoo", "InterfaceNotFound", "MethodNotImplemented", "Busy", "E", "TestMoreError", "Oops", "Timeout2"];
+const METHOD_NAMES: &[&str] = &["Ping", "GetInfo", "Foo", "Bar", "Set2", "ListAll", "X", "GetID", "HTTPGet", "Monitor", "Put", "Union", "Auto", "Default", "New", "Reply", "TestMore", "StopServing", "Start01", "End", "ID", "SetTTL", "HTTPServer2", "XY", "A1B2", "ReadEOF", "AB", "GetURLs"];
+const ERROR_NAMES: &[&str] = &["Bad", "NotFound", "Failed", "ErrorFoo", "InterfaceNotFound", "MethodNotImplemented", "Busy", "E", "TestMoreError", "Oops", "Timeout2", "BadIO", "EOF", "E2BIG", "NoID"];
 
 pub struct GenOpts {
     pub max_depth: usize,
